@@ -44,6 +44,14 @@ STRENGTHENED = {
  'C11-r6-m2': 'an extension alias as the only search feature, on every Finder',
  'C13-r6-m1': 'one unchanged tree with files of several types per entity, asked by fresh processes under 6 hash seeds: raw order and find_one compared',
  'C15-r6-m3': 'writes through two long-lived writer objects taking turns on the same entity',
+ 'C01-r7-m3': 'histories: assignment into the dictionary returned by .fields, then the same string (plain and uri) typed again',
+ 'C03-r7-m2': 'caught by C19 and C20 as written (the change only shows under a configuration with an explicit intermediate level)',
+ 'C08-r7-m1': 'a star inside a free value, head and tail taken from an entry value and possibly overlapping in it',
+ 'C09-r7-m1': "universes varying the levels between two '>' and searches '>' ... '*' ... '>'",
+ 'C12-r7-m2': 'exists() of the Finder objects themselves (FindInPaths, FindInAll) against their own find(), incl. alias-only searches',
+ 'C19-r7-m1': 'a second, diverging chain per basetype (names proposed twice)',
+ 'C20-r7-m2': 'family feature: key names holding the separator character (pub_status, work_step), one of them the keytype of an extrapolated type',
+ 'C20-r7-m3': 'family feature: alias names that are not lower case',
  'C20-r3-m2': 'NOT CAUGHT: needs overlapping key_patterns groups (precedence between them is not a documented convention); see DESIGN.md I.7',
 }
 res = {}
@@ -52,7 +60,7 @@ for line in open(os.path.join(V, 'notes', 'seed_sweep_results.txt')):
         k, v = line.split(' | ', 1)
         res[k.strip()] = v.strip()
 for d in sorted(os.listdir(os.path.join(V, 'seeded'))):
-    if not any(t in d for t in ('-r2-', '-r3-', '-r4-', '-r5-', '-r6-')):
+    if not any(t in d for t in ('-r2-', '-r3-', '-r4-', '-r5-', '-r6-', '-r7-')):
         continue
     dd = os.path.join(V, 'seeded', d)
     note = open(os.path.join(dd, 'note.txt')).read().strip() if os.path.exists(os.path.join(dd, 'note.txt')) else ''
@@ -61,7 +69,7 @@ for d in sorted(os.listdir(os.path.join(V, 'seeded'))):
     r = res.get(d, 'not run')
     caught = 'VIOLATION' in r
     meta = {
-        'property': prop, 'round': 2 if '-r2-' in d else (3 if '-r3-' in d else (4 if '-r4-' in d else (5 if '-r5-' in d else 6))),
+        'property': prop, 'round': 2 if '-r2-' in d else (3 if '-r3-' in d else (4 if '-r4-' in d else (5 if '-r5-' in d else (6 if '-r6-' in d else 7)))),
         'breaks': note,
         'needs_to_manifest': note.splitlines()[-1] if note else '',
         'confirmed': 'patch applied in a scratch worktree: repository test suite unchanged (46 passed, 1 known failure); demo.py exits 1 with the patch and 0 without',
